@@ -11,7 +11,8 @@ CASE_TIMEOUT = 0.5
 MODEL_CASE_TIMEOUT = 5.0
 RULE = ("programs defining 1-4 functions with 1-3 parameters of every type and DEFtype setting, called from PRINT lists, subscripts, "
         "FOR bounds, IF conditions and other function bodies (depth <= 4), with same-named program variables present; arity errors, "
-        "undefined functions, DEF in direct mode, runaway recursion; non-trivial = at least one call evaluated; distinct = program text")
+        "undefined functions, DEF in direct mode, runaway recursion, a second DEF of a defined name between calls (other body or parameters); "
+        " non-trivial = at least one call evaluated; distinct = program text")
 ASSUMPTIONS = ["an error raised inside a function body is outside the compared fragment (the manual does not say which line it belongs to)"]
 EXHAUSTIVE = {"quick": False, "thorough": False}
 
